@@ -65,7 +65,9 @@ BadTexts == {
   <<49,48,46,48,46,48,46,48,47,56,32,120>>,     \* "10.0.0.0/8 x"
   \* white space around a network (a quoted scalar with a blank, the line feed of a block scalar, a tab)
   <<32,49,48,46,48,46,48,46,48,47,56>>, <<49,48,46,48,46,48,46,48,47,56,32>>, <<49,48,46,48,46,48,46,48,47,56,10>>,
-  <<9,49,48,46,48,46,48,46,48,47,56>>, <<32,58,58,49,47,49,50,56,32>>, <<49,48,46,48,46,48,46,48,32,47,56>>
+  <<9,49,48,46,48,46,48,46,48,47,56>>, <<32,58,58,49,47,49,50,56,32>>, <<49,48,46,48,46,48,46,48,32,47,56>>,
+  \* an IPv6 address with a zone identifier (fe80::1%1/128, fe80::%eth0/64): no network of addresses as they stand in logs
+  <<102,101,56,48,58,58,49,37,49,47,49,50,56>>, <<102,101,56,48,58,58,37,101,116,104,48,47,54,52>>
 }
 BadCases == {[kind |-> "bad", net |-> <<>>, p |-> 0, text |-> t] : t \in BadTexts}
 
